@@ -49,6 +49,7 @@ fn main() {
     let assets_opts = nums(&prof, "assets", &[1, 2, 3]);
     let levels_opts = nums(&prof, "levels", &[1, 2, 4, 10]);
     let steps_opts = nums(&prof, "step_sizes", &[1, 3, 10, 1000]);
+    let t0_opts = nums(&prof, "t0s", &[0, 0, 7, 1999, 34_200_251]);
     let ticks_opts = nums(&prof, "ticks", &[1, 1, 2, 5]);
     let max_batch = f64p("max_batch", 7.0) as usize;
     let p_step = f64p("p_step", 0.2);
@@ -76,11 +77,13 @@ fn main() {
         let step = *pick(&mut rng, &steps_opts);
         let ticks: Vec<u32> = (0..na).map(|_| *pick(&mut rng, &ticks_opts) as u32).collect();
         let trading = rng.gen::<f64>() < 0.9;
-        let mut env: Box<dyn EnvDyn> = new_env(kind, levels, 0, &ticks, step, trading);
+        // start times that are not multiples of the step size (and 0)
+        let t0: u64 = *pick(&mut rng, &t0_opts);
+        let mut env: Box<dyn EnvDyn> = new_env(kind, levels, t0, &ticks, step, trading);
         let mut srng = R::seed_from_u64(rng.gen());
         let base: Vec<u32> = (0..na).map(|_| rng.gen_range(5..60)).collect();
         let mut t = Track { prev_orders: vec![vec![]; na], n_trades: vec![0; na] };
-        let cfg = json!({"kind": kind, "ticks": ticks, "step": step, "trading": trading, "levels": levels, "t0": 0});
+        let cfg = json!({"kind": kind, "ticks": ticks, "step": step, "trading": trading, "levels": levels, "t0": t0});
         let mut history: Vec<Value> = vec![merge(json!({"op": "reset"}), cfg.clone())];
         let p0 = env.proj();
         let ev = merge(merge(json!({"op": "reset", "run": run, "audit": false}), cfg.clone()), observe(&p0, &mut t, false, &mut feats));
